@@ -9,6 +9,8 @@ use model::rng::{fnv, mix};
 
 pub struct Config {
     pub max_len: usize,
+    /// leave out the C12 container matrix (its types repeat the shapes of the rest of the catalogue)
+    pub skip_matrix: bool,
 }
 
 /// number of run indices (blocks) for strings of length <= max_len
@@ -56,6 +58,9 @@ pub fn run(cat: &Catalog, cfg: &Config, stats: &mut Stats, block: u64) -> Vec<Vi
     let mut violations = Vec::new();
     for s in strings_of_block(block, cfg.max_len) {
         for e in &cat.entries {
+            if cfg.skip_matrix && e.name.starts_with("m.") {
+                continue;
+            }
             let mut c = Case::new("C05", "total", e.name, s.clone());
             c.fault = "enumerated foreign sector".into();
             c.fault_kind = "F-garbage".into();
